@@ -341,6 +341,13 @@ theorem accepted_whatever_the_layout (T : Table) (t1 t2 : Bytes) (l1 : Lex.Resul
     Machine.parse T t2 prev2 = .accept r :=
   Layout.accepted_whatever_the_layout T t1 t2 l1 h1 hw prev1 prev2 r h
 
+/-- a concrete layout normal form: the tokens of an accepted script (comments included), one per line, are accepted with
+    the same tree -/
+theorem accepted_with_one_token_per_line (T : Table) (t1 : Bytes) (l1 : Lex.Result) (h1 : Lex.lex t1 = some l1)
+    (prev1 prev2 : PState) (r : List Node) (h : Machine.parse T t1 prev1 = .accept r) :
+    Machine.parse T (Layout.onePerLine l1.toks) prev2 = .accept r :=
+  Layout.accepted_one_token_per_line T t1 l1 h1 prev1 prev2 r h
+
 /-- non-vacuity: the same five tokens in two layouts -/
 example : (Lex.lex (sb "if true{keep;}")).map (fun (l : Lex.Result) => l.toks.map Lex.kt) =
     (Lex.lex (sb "  if\ttrue\r\n{\n  keep ;\n}\n")).map (fun (l : Lex.Result) => l.toks.map Lex.kt) := by decide +kernel
